@@ -141,6 +141,10 @@ func (s *Set) getSiblingTemplate(templatePath, siblingPath string, cacheAfterPar
 	if !path.IsAbs(templatePath) {
 		siblingDir := path.Dir(siblingPath)
 		templatePath = path.Join(siblingDir, templatePath)
+	} else {
+		// absolute names need cleaning too, or the loader and the cache would see
+		// '.', '..' and empty segments (and '..' could climb above the root)
+		templatePath = path.Clean(templatePath)
 	}
 	return s.getTemplate(templatePath, cacheAfterParsing)
 }
